@@ -16,10 +16,11 @@ def run(report):
                   "T obligations are exact decisions over the complete finite domain 'all rules / states / transitions of "
                   "all shipped grammar files' (evaluated on the live tables built by the code under check, under python3-vt)",
                   "independent EBNF reader and automata library spec/ebnf.py")
-    max_size = 3 if report.tier == 'quick' else 4
+    max_size = 3
+    full = report.tier != 'quick'
 
     def small():
-        obs, stats = S.small_grammar_obligations(max_size)
+        obs, stats = S.small_grammar_obligations(max_size, full=full)
         return [(obs, stats)]
     from props.common import _call_with_deadline
     out = _call_with_deadline(small, (), 1500)
